@@ -32,7 +32,7 @@ use crate::backup::{get_backup_path, needs_backup};
 use crate::config::{Config, Reflink};
 use crate::errors::{Result, XcpError};
 use crate::feedback::{StatusUpdate, StatusUpdater};
-use crate::paths::{parse_ignore, ignore_filter, is_dir};
+use crate::paths::{parse_ignore, ignore_filter, is_dir, lexists};
 
 #[derive(Debug)]
 pub struct CopyHandle {
@@ -241,7 +241,7 @@ pub fn tree_walker(
                 target_base.clone()
             };
 
-            if config.no_clobber && target.try_exists()? {
+            if config.no_clobber && lexists(&target)? {
                 let msg = "Destination file exists and --no-clobber is set.";
                 stats.send(StatusUpdate::Error(
                     XcpError::DestinationExists(msg, target)))?;
